@@ -111,10 +111,20 @@ func NewClient[Req, Res any](httpClient HTTPClient, url string, options ...Clien
 	return client
 }
 
+// constructionError reports why NewClient couldn't build a working client.
+// Every call gets an error value of its own: callers may attach metadata to
+// the errors they receive, and calls may run concurrently.
+func (c *Client[Req, Res]) constructionError() error {
+	if connectErr, ok := asError(c.err); ok {
+		return NewError(connectErr.Code(), connectErr.Unwrap())
+	}
+	return c.err
+}
+
 // CallUnary calls a request-response procedure.
 func (c *Client[Req, Res]) CallUnary(ctx context.Context, request *Request[Req]) (*Response[Res], error) {
 	if c.err != nil {
-		return nil, c.err
+		return nil, c.constructionError()
 	}
 	return c.callUnary(ctx, request)
 }
@@ -122,7 +132,7 @@ func (c *Client[Req, Res]) CallUnary(ctx context.Context, request *Request[Req])
 // CallClientStream calls a client streaming procedure.
 func (c *Client[Req, Res]) CallClientStream(ctx context.Context) *ClientStreamForClient[Req, Res] {
 	if c.err != nil {
-		return &ClientStreamForClient[Req, Res]{err: c.err}
+		return &ClientStreamForClient[Req, Res]{err: c.constructionError()}
 	}
 	return &ClientStreamForClient[Req, Res]{conn: c.newConn(ctx, StreamTypeClient)}
 }
@@ -130,7 +140,7 @@ func (c *Client[Req, Res]) CallClientStream(ctx context.Context) *ClientStreamFo
 // CallServerStream calls a server streaming procedure.
 func (c *Client[Req, Res]) CallServerStream(ctx context.Context, request *Request[Req]) (*ServerStreamForClient[Res], error) {
 	if c.err != nil {
-		return nil, c.err
+		return nil, c.constructionError()
 	}
 	conn := c.newConn(ctx, StreamTypeServer)
 	mergeHeaders(conn.RequestHeader(), request.header)
@@ -153,7 +163,7 @@ func (c *Client[Req, Res]) CallServerStream(ctx context.Context, request *Reques
 // CallBidiStream calls a bidirectional streaming procedure.
 func (c *Client[Req, Res]) CallBidiStream(ctx context.Context) *BidiStreamForClient[Req, Res] {
 	if c.err != nil {
-		return &BidiStreamForClient[Req, Res]{err: c.err}
+		return &BidiStreamForClient[Req, Res]{err: c.constructionError()}
 	}
 	return &BidiStreamForClient[Req, Res]{conn: c.newConn(ctx, StreamTypeBidi)}
 }
